@@ -33,7 +33,7 @@ func (l c11Layout) String() string {
 
 // c11Build creates the layout under root and returns the request path of the image file.
 func c11Build(root string, l c11Layout) string {
-	lens := map[string]int{"<F70": 0xF00, "F90..106F": 0x1000, ">=1070": 0x1070 + 0x790 /* 3 sectors */, "multi": 40 * 2048}
+	lens := map[string]int{"<F70": 0xF00, "F90..106F": 0x1000, "=106F": 0x106F, "=1070": 0x1070, "=1071": 0x1071, ">=1070": 0x1070 + 0x790 /* 3 sectors */, "multi": 40 * 2048}
 	n := lens[l.Len]
 	kA := tree.Content(int64(l.ID)*3+1, 16)
 	kR := tree.Content(int64(l.ID)*3+2, 16)
@@ -102,7 +102,7 @@ func c11Build(root string, l c11Layout) string {
 
 func C11(e *Env) {
 	run := e.Run
-	run.Rule = "cases: the full finite product directory-name case {PS3ISO,ps3iso,Ps3Iso,GAMES} x extension {.iso,.ISO,.Iso,.bin} x nesting {direct, one level below} x key {none, adjacent, REDKEY, both (different), malformed} x watermark {none, encrypted, decrypted} x length {<0xF70, 0xF90..0x106F, >=0x1070, multi-sector}; each layout is opened through the real FS.Open (sequential read + windows overlapping 0xF70..0x1070 + open-for-write pass-through) and a sample/all through the server; bytes compared with the transformation selected by the decision table transcribed from the statement; non-trivial = distinct (layout class, selected transformation)"
+	run.Rule = "cases: the full finite product directory-name case {PS3ISO,ps3iso,Ps3Iso,GAMES} x extension {.iso,.ISO,.Iso,.bin} x nesting {direct, one level below} x key {none, adjacent, REDKEY, both (different), malformed} x watermark {none, encrypted, decrypted} x length {<0xF70, 0xF90..0x106F, exactly 0x106F / 0x1070 / 0x1071, >=0x1070, multi-sector}; each layout is opened through the real FS.Open (sequential read + windows overlapping 0xF70..0x1070 + open-for-write pass-through) and a sample/all through the server; bytes compared with the transformation selected by the decision table transcribed from the statement; non-trivial = distinct (layout class, selected transformation)"
 	if _, err := refcrypt.SelfCheck(); err != nil {
 		fatalf("refcrypt self-check: %v", err)
 	}
@@ -114,7 +114,7 @@ func C11(e *Env) {
 			for _, n := range []string{"direct", "nested"} {
 				for _, k := range []string{"none", "adjacent", "redkey", "both", "malformed"} {
 					for _, w := range []string{"none", "enc", "dec"} {
-						for _, ln := range []string{"<F70", "F90..106F", ">=1070", "multi"} {
+						for _, ln := range []string{"<F70", "F90..106F", "=106F", "=1070", "=1071", ">=1070", "multi"} {
 							id++
 							layouts = append(layouts, c11Layout{d, x, n, k, w, ln, id})
 						}
@@ -277,7 +277,7 @@ func C11(e *Env) {
 	run.Exhaustive = true
 	CrashCheck(e, p, "c11 worker", nil)
 	run.Assume("not judged (statement silent): malformed key files, file length inside the watermark area, key applies to a table with single-sector plain regions; with key and watermark both present the 256-byte area is don't-care")
-	run.Floor(run.Counter("layouts_judged") >= 1000, "fewer than 1000 layouts judged")
+	run.Floor(run.Counter("layouts_judged") >= 2000, "fewer than 1000 layouts judged")
 }
 
 func lowerClass(d string) string {
